@@ -274,6 +274,10 @@ func (x *Exec) modelCLI(a *activation, b *ssa.BasicBlock, i int, in *ssa.Call, c
 			a.k([]AV{args[0]}, h, p.note("exit"), fr)
 		}
 		return true, true
+	case "fmt.Errorf", "errors.New":
+		// constructs an error: never nil
+		fr.vals[in] = AV{k: 'E', tri: 2}
+		return true, false
 	case "fmt.Sprintf", "fmt.Sprint", "fmt.Sprintln", "strings.TrimSpace":
 		fr.vals[in] = AV{k: 'S'}
 		return true, false
